@@ -8,7 +8,7 @@ import (
 )
 
 // FaultKinds lists the corruptions a plan may ask for.
-var FaultKinds = []string{"bitflip", "bitflip", "truncate", "extend", "empty", "garbage", "swap", "swap", "stale-head", "old-record-head", "forged-record", "forged-record", "forged-chain", "forged-chain", "other-log", "other-log-head", "error", "drop-sig", "dup-line", "future-head", "foreign-key-head", "foreign-key-head", "partial-error-full-forged", "partial-error-full-forged"}
+var FaultKinds = []string{"bitflip", "bitflip", "truncate", "extend", "empty", "garbage", "swap", "swap", "stale-head", "old-record-head", "forged-record", "forged-record", "forged-chain", "forged-chain", "other-log", "other-log-head", "error", "drop-sig", "dup-line", "future-head", "foreign-key-head", "foreign-key-head", "partial-error-full-forged", "partial-error-full-forged", "swap-related"}
 
 type forgery struct {
 	id    int64
@@ -109,6 +109,21 @@ func (o *Ops) apply(f Fault, op, name string, data []byte, err error) ([]byte, e
 		s := string(d)
 		if i := strings.Index(s, "\n"); i >= 0 {
 			return []byte(s[:i+1] + s), err
+		}
+	case "swap-related":
+		// the authentic response for the record whose module path ends in the requested one (worlds with Twins)
+		if class == "lookup" && strings.Contains(name, "/lookup/") {
+			mv := name[strings.Index(name, "/lookup/")+len("/lookup/"):]
+			if i := strings.LastIndex(mv, "@"); i >= 0 {
+				p, _ := UnescapeUpper(mv[:i])
+				v, _ := UnescapeUpper(mv[i+1:])
+				if id, ok := o.Srv.Log.Find(ModVer{"proxy.example/" + p, v}); ok && id < o.Srv.Size {
+					return o.W.LookupResponse(o.Srv.Log, id, o.Srv.Size), nil
+				}
+				if id, ok := o.Srv.Log.Find(ModVer{strings.TrimPrefix(p, "proxy.example/"), v}); ok && id < o.Srv.Size && strings.HasPrefix(p, "proxy.example/") {
+					return o.W.LookupResponse(o.Srv.Log, id, o.Srv.Size), nil
+				}
+			}
 		}
 	case "swap":
 		// another authentic resource of the same class
